@@ -79,6 +79,8 @@ def cases(draw):
     prog = draw(S.programs(p))
     if b == "kotlin":
         kotlin_error_attrs(prog)
+    if b in ("kotlin", "c") and draw(st.integers(0, 2)) == 0:
+        S.add_trait(draw, prog)          # bridged traits get files of their own in the backends that accept them
     if draw(st.booleans()):
         draw(S.decorate(prog))
     if draw(st.integers(0, 2)) == 0:
@@ -108,6 +110,9 @@ def cases(draw):
               "impls": [{"attrs": [], "methods": [{"name": "dv_sum", "attrs": [], "lifetimes": [], "self": ["val"], "params": [], "ret": ["prim", "f64"]}]}]}
     else:
         it = {"kind": "enum", "name": uname, "attrs": [], "variants": [["DvA", None, []], ["DvB", 5, []]], "impls": []}
+    # ... or take a callback (backends generate per-callback helpers next to the type that uses them)
+    if ukind == "struct" and p.get("callbacks") and draw(st.booleans()):
+        it["impls"][0]["methods"].append({"name": "dv_each", "attrs": [], "lifetimes": [], "self": ["val"], "params": [["dv_f", ["cb", [["prim", "i32"]], ["prim", "i32"], False], []]], "ret": ["prim", "u8"]})
     # the added type may itself mention existing types of its module (outgoing references only: still nothing refers to it)
     if ukind in ("opaque", "struct") and draw(st.booleans()):
         cands = []
@@ -177,6 +182,27 @@ def cases(draw):
     ir.default_order(tm2)
     ptwin["modules"].insert(draw(st.integers(0, len(ptwin["modules"]))), tm2)
     prog["_r3c"] = [pbase, ptwin]
+    # R3k (kotlin, c): a struct-only bridge with a trait; the added unreferenced struct takes callbacks and is the last type the
+    # backend generates, so per-type state it leaves behind must not reach the trait's file
+    if b in ("kotlin", "c"):
+        prims_ = ["u8", "i16", "i32", "u32", "i64", "f32", "f64", "bool"]
+        kitems = []
+        for i in range(draw(st.integers(1, 3))):
+            kitems.append({"kind": "struct", "name": "DvK%d" % i, "attrs": [], "out": False, "lifetimes": [],
+                           "fields": [["f%d" % j, ["prim", draw(st.sampled_from(prims_))], []] for j in range(draw(st.integers(1, 3)))],
+                           "impls": [{"attrs": [], "methods": [{"name": "dv_sum", "attrs": [], "lifetimes": [], "self": ["val"], "params": [], "ret": ["prim", "i32"]}]}]})
+        kbase = {"modules": [{"name": "ffi", "attrs": [], "uses": [], "items": kitems}], "config_attrs": [], "extra_top": []}
+        ir.default_order(kbase["modules"][0])
+        S.add_trait(draw, kbase)
+        kplus = copy.deepcopy(kbase)
+        cbm = []
+        for i in range(draw(st.integers(1, 2))):
+            cbm.append({"name": "dv_each%d" % i, "attrs": [], "lifetimes": [], "self": ["val"],
+                        "params": [["dv_f", ["cb", [["prim", draw(st.sampled_from(prims_))] for _ in range(draw(st.integers(0, 2)))], draw(st.sampled_from([["unit"], ["prim", "i32"], ["prim", "u8"]])), False], []]], "ret": ["prim", "u8"]})
+        kplus["modules"][0]["items"].append({"kind": "struct", "name": draw(st.sampled_from(["DvZzLast", "DvAaFirst"])), "attrs": [], "out": False, "lifetimes": [],
+                                             "fields": [["dv_a", ["prim", "u8"], []]], "impls": [{"attrs": [], "methods": cbm}]})
+        ir.default_order(kplus["modules"][0])
+        prog["_r3k"] = [kbase, kplus]
     return b, prog, perm, ins, uname, nb, twin
 
 
@@ -252,10 +278,13 @@ def worker(widx, seed, params):
             if it_["name"] == uname:
                 it_["attrs"] = list(it_["attrs"]) + ["#[diplomat::attr(*, disable)]"]
         r3c = prog.pop("_r3c", None)
-        variants = [("R1", prog), ("R2", perm), ("R3", ins), ("R3d", insd), ("R4", nb)] + ([("R3b", twin)] if twin is not None else []) + ([("R3c", r3c[1])] if r3c else [])
+        r3k = prog.pop("_r3k", None)
+        variants = [("R1", prog), ("R2", perm), ("R3", ins), ("R3d", insd), ("R4", nb)] + ([("R3b", twin)] if twin is not None else []) + ([("R3c", r3c[1])] if r3c else []) + ([("R3k", r3k[1])] if r3k else [])
         for rel, var in variants:
             identity = rel == "R2" and ir.render_program(perm) == ir.render_program(prog)
-            msg = relation_check(art, work, backend, cfg, r3c[0] if rel == "R3c" else prog, var, "R3b" if rel == "R3c" else rel, uname)
+            msg = relation_check(art, work, backend, cfg, r3c[0] if rel == "R3c" else (r3k[0] if rel == "R3k" else prog), var, "R3b" if rel in ("R3c", "R3k") else rel, uname)
+            if msg and rel == "R3k" and msg not in ("skip", "skip-variant"):
+                msg = "R3k (struct-only bridge with a trait; the added struct takes callbacks): " + msg
             if msg and rel == "R3c" and msg not in ("skip", "skip-variant"):
                 msg = "R3c (an identical method-less struct of the same name in a second namespace): " + msg
             if msg == "skip":
@@ -280,7 +309,7 @@ def worker(widx, seed, params):
                 if rel == "R1":
                     small, _ = red.reduce(prog, fails, budget=40)
                     msg = relation_check(art, work, backend, cfg, small, small, "R1") or msg
-                acc.violation(msg, {"backend": backend, "config": cfg, "relation": "R3b" if rel == "R3c" else rel, "base": r3c[0] if rel == "R3c" else prog, "variant": var, "uname": uname}, signature=sig)
+                acc.violation(msg, {"backend": backend, "config": cfg, "relation": "R3b" if rel in ("R3c", "R3k") else rel, "base": r3c[0] if rel == "R3c" else (r3k[0] if rel == "R3k" else prog), "variant": var, "uname": uname}, signature=sig)
 
     pbt.explore(cases(), body, params["n"], seed)
     build.rm_workdir(work)
